@@ -53,7 +53,7 @@ RULE = ("case = (scenario intro|retry, NAT kind of requester A x NAT kind of the
         "distinct / random), first NAT port (40001 / random / port preserving), private address family "
         "(10/8, 192.168/16, 172.16/12), candidates sharing one NAT box, mixed candidate placements and styles, "
         "UDPEndpoint vs DispatcherEndpoint, RandomWalk reset chance 0 or 50, requesters stepping one after the other "
-        "or in the same tick, candidates already known to B from an earlier life on another port (restart with the same key "
+        "or in the same tick, different NATs handing out the same private /24, candidates already known to B from an earlier life on another port (restart with the same key "
         "before the introduction); every 4th seeded case is the lossy 'retry' configuration (loss 2-20 %, 2-6 rounds). "
         "Non-trivial = B handed out at least one introduction that was judged by the reachability oracle; "
         "distinct = (nat_a, nat_c, placement, style, n_candidates) plus the set of judged (requester kind, "
@@ -113,7 +113,7 @@ def grid():  # noqa: ANN201
 
 DEFAULT_OPTS = {"order": "a_last", "gap": 0.3, "ports": "same", "nat_ports": "default", "lan": "10",
                 "endpoint": "auto", "c_shared": False, "mixed": False, "mixed_style": False, "reset_chance": 0,
-                "concurrent": False, "rounds": 1, "restart": False}
+                "concurrent": False, "rounds": 1, "restart": False, "lan_overlap": False}
 
 
 def _case(scn, cell, n, seed, knobs=None, **opts) -> dict:  # noqa: ANN001, ANN003
@@ -145,7 +145,8 @@ def seeded(cell, seed: int, tier: str, lossy: bool) -> dict:  # noqa: ANN001
             "reset_chance": rng.choice([0, 0, 50]),
             "concurrent": rng.random() < 0.4,
             "rounds": 1,
-            "restart": rng.random() < 0.25}
+            "restart": rng.random() < 0.25,
+            "lan_overlap": rng.random() < 0.3}
     scn = "intro"
     if lossy:
         scn = "retry"
@@ -167,6 +168,10 @@ def cases(tier: str, base_seed: int):  # noqa: ANN201
         if cell[2] == "same" or (cell[0], cell[1]) in (("port", "port"), ("none", "addr"), ("full", "none")):
             s += 1
             yield _case("intro", cell, 2, s, restart=True)
+    for cell in cells:                       # different NATs that hand out the same private /24
+        if cell[2] == "different" and cell[1] != "none" and cell[0] != "none":
+            s += 1
+            yield _case("intro", cell, 2, s, lan_overlap=True)
     for cell in cells:                       # plain grid under loss with retries
         s += 1
         yield _case("retry", cell, 2, s, {"loss": 0.1}, rounds=4)
@@ -295,6 +300,7 @@ async def build(c: Case, case: dict) -> Topo:  # noqa: C901, PLR0912, PLR0915
     k = int(case["n_candidates"])
     t = Topo()
     fam = o["lan"]
+    ov = bool(o.get("lan_overlap"))     # every NAT hands out addresses of the SAME private /24 (distinct hosts): what home routers do
 
     def port_for(idx: int) -> int:
         if o["ports"] == "same":
@@ -336,18 +342,18 @@ async def build(c: Case, case: dict) -> Topo:  # noqa: C901, PLR0912, PLR0915
         if place == "same":
             plan.append((name, _lan_ip(fam, 0, 3 + i), nat_a, nat_a.kind, p))
         elif place == "with_c1":
-            plan.append((name, _lan_ip(fam, 9, 30 + i), first_c_nat, first_c_nat.kind, p))
+            plan.append((name, _lan_ip(fam, 0 if ov else 9, 60 + i if ov else 30 + i), first_c_nat, first_c_nat.kind, p))
         elif kind == "none":
             plan.append((name, f"7.7.{i + 1}.7", None, "none", p))
         elif o["c_shared"] and not (i > 0 and o["mixed"]):
             if shared is None:
                 shared = net.add_nat("7.7.100.7", kind, None)
                 first_nat_port(shared, p)
-            plan.append((name, _lan_ip(fam, 9, 3 + i), shared, kind, p))
+            plan.append((name, _lan_ip(fam, 0 if ov else 9, 40 + i if ov else 3 + i), shared, kind, p))
         else:
             nat = net.add_nat(f"7.7.{i + 1}.7", kind, None)
             first_nat_port(nat, p)
-            plan.append((name, _lan_ip(fam, i + 1, 3), nat, kind, p))
+            plan.append((name, _lan_ip(fam, 0 if ov else i + 1, 20 + i if ov else 3), nat, kind, p))
         if i == 0:
             first_c_nat = plan[-1][2]
     cls = overlay_class()
